@@ -339,6 +339,100 @@ async fn infinite_wait_body(pair: (&str, &str), transport: Transport, wait_s: u6
   L2::Ok
 }
 
+
+/// RCVTIMEO on a parked recv while peers come and go: every arrival / departure touches the
+/// receiving socket's internals (pipe attach, identity bookkeeping), none of it may restart or
+/// stretch the timeout.
+#[derive(Clone, Debug, Serialize, Deserialize)]
+pub struct ChurnCase {
+  pub rtype: String,
+  pub transport: Transport,
+  pub rcvtimeo: u16,
+  pub peers: u8,
+  pub gap_ms: u16,
+  pub leave: bool,
+}
+
+async fn churn_body(c: &ChurnCase, paused: bool) -> L2 {
+  let ctx = match rzmq::Context::new() {
+    Ok(x) => x,
+    Err(e) => return L2::Inconclusive(e.to_string()),
+  };
+  let stype = match c.rtype.as_str() {
+    "PULL" => "PUSH",
+    "ROUTER" => "DEALER",
+    "DEALER" => "ROUTER",
+    "SUB" => "PUB",
+    _ => "REQ",
+  };
+  let (receiver, ep) = match stack::bound(&ctx, &c.rtype, c.transport, &[stack::i32opt(opt::RCVTIMEO, c.rcvtimeo as i32)]).await {
+    Ok(x) => x,
+    Err(e) => return L2::Inconclusive(e),
+  };
+  if c.rtype == "SUB" {
+    let _ = receiver.set_option_raw(opt::SUBSCRIBE, b"").await;
+  }
+  let ctx2 = ctx.clone();
+  let ep2 = ep.clone();
+  let (n, gap, leave) = (c.peers, c.gap_ms as u64, c.leave);
+  let churn = tokio::spawn(async move {
+    let mut keep = Vec::new();
+    for i in 0..n {
+      tokio::time::sleep(Duration::from_millis(gap)).await;
+      if let Ok(s) = stack::connected(&ctx2, stype, &ep2, &[]).await {
+        if leave && i % 2 == 1 {
+          tokio::time::sleep(Duration::from_millis(gap / 2)).await;
+          let _ = s.close().await;
+        } else {
+          keep.push(s);
+        }
+      }
+    }
+    keep
+  });
+  let t = tokio::time::Instant::now();
+  let cap = Duration::from_millis(c.rcvtimeo as u64 + (n as u64 + 2) * gap * 2 + 3000);
+  let r = tokio::time::timeout(cap, receiver.recv_multipart()).await;
+  let el = t.elapsed();
+  let keep = churn.await.unwrap_or_default();
+  let v = |check: &str, d: String| L2::Violation(Violation::new(check, d).with("layer", "stack").with("transport", c.transport.name()).with("receiver", c.rtype.clone()));
+  let out = match r {
+    Err(_) => v("rcvtimeo_not_honoured", format!("{} RCVTIMEO {} ms with {} silent peers arriving {} ms apart: recv still pending after {:?}", c.rtype, c.rcvtimeo, n, gap, el)),
+    Ok(Ok(f)) => v("recv_spurious_success", format!("recv returned {} frames although no peer sent anything", f.len())),
+    Ok(Err(e)) => {
+      let kind = stack::err_kind(&e);
+      let lo = Duration::from_millis(c.rcvtimeo as u64);
+      let late = el > lo + Duration::from_millis(if paused { 10 } else { 300 });
+      let early = if paused { el < lo } else { el + Duration::from_millis(2) < lo };
+      if kind != "timeout" && kind != "would_block" {
+        v("recv_wrong_error", format!("{}: error {} on an empty queue", c.rtype, e))
+      } else if late || early {
+        v("rcvtimeo_not_honoured", format!("{} RCVTIMEO {} ms with {} silent peers arriving {} ms apart: recv failed after {:?}", c.rtype, c.rcvtimeo, n, gap, el))
+      } else {
+        L2::Ok
+      }
+    }
+  };
+  for s in keep {
+    let _ = s.close().await;
+  }
+  let _ = receiver.close().await;
+  let _ = tokio::time::timeout(Duration::from_secs(20), ctx.term()).await;
+  out
+}
+
+fn churn_strategy() -> impl Strategy<Value = ChurnCase> + Clone {
+  (
+    prop::sample::select(vec!["PULL", "ROUTER", "DEALER", "SUB", "REP", "ROUTER"]),
+    prop::sample::select(vec![Transport::Tcp, Transport::Ipc, Transport::Inproc]),
+    prop::sample::select(vec![100u16, 250, 400]),
+    2u8..9,
+    prop::sample::select(vec![20u16, 60, 120]),
+    any::<bool>(),
+  )
+    .prop_map(|(r, transport, rcvtimeo, peers, gap_ms, leave)| ChurnCase { rtype: r.to_string(), transport: if r == "DEALER" && transport == Transport::Inproc { Transport::Ipc } else { transport }, rcvtimeo, peers, gap_ms, leave })
+}
+
 fn run_paused<F: std::future::Future<Output = L2>>(ceiling_real: Duration, desc: String, body: F) -> L2 {
   let rt = tokio::runtime::Builder::new_current_thread().enable_all().start_paused(true).build().unwrap();
   // the watchdog must be in real time: run it on a helper thread
@@ -360,7 +454,7 @@ fn run_paused<F: std::future::Future<Output = L2>>(ceiling_real: Duration, desc:
 }
 
 pub fn run(run: &mut Run) {
-  run.rule = "cases = sender/receiver pair in {PUSH->PULL, DEALER->DEALER, DEALER->ROUTER, ROUTER->DEALER} x transport (inproc on a paused clock, tcp/ipc on the real clock) x SNDHWM, RCVHWM in {1,2,10,100} x SNDTIMEO in {-1,0,1,20,100,500} x RCVTIMEO in {-1,0,1,20,100,500} x SNDBATCH/RCVBATCH_COUNT unset or 1..8 x 16/64 KiB messages; first recv on an empty queue, then flood until the first refusal, then drain behind a sentinel. Non-trivial = the flood reached a refusal (the queue really was full). Distinct = hash of the case".into();
+  run.rule = "cases = sender/receiver pair in {PUSH->PULL, DEALER->DEALER, DEALER->ROUTER, ROUTER->DEALER} x transport (inproc on a paused clock, tcp/ipc on the real clock) x SNDHWM, RCVHWM in {1,2,10,100} x SNDTIMEO in {-1,0,1,20,100,500} x RCVTIMEO in {-1,0,1,20,100,500} x SNDBATCH/RCVBATCH_COUNT unset or 1..8 x 16/64 KiB messages; first recv on an empty queue, then flood until the first refusal, then drain behind a sentinel; recv_timeout_under_peer_churn: a parked recv with RCVTIMEO in {100,250,400} ms on PULL/ROUTER/DEALER/SUB/REP while 2..8 silent peers connect (and every second one leaves again) 20..120 ms apart. Non-trivial = the flood reached a refusal (the queue really was full). Distinct = hash of the case".into();
   run.assumptions = vec![
     "bound on accepted messages = 3*(SNDHWM+RCVHWM) + 2*(SNDBATCH_COUNT + RCVBATCH_COUNT) (256 when unset) + kernel allowance (tcp/ipc: 8*64KiB/size + 8) + 64 - generous on purpose: the property names no constant, only boundedness by the HWMs plus a fixed allowance".into(),
     "real-clock slack: +250 ms on positive timeouts, 50 ms on zero; paused clock: exact (5 ms)".into(),
@@ -386,6 +480,18 @@ pub fn run(run: &mut Run) {
       stack::run_l2(if c.multi_thread { Rt::Multi(2) } else { Rt::Current }, Duration::from_secs(90), body(c, false))
     };
     l2_result(run, "flood_and_drain", r)
+  });
+  let n_churn = match run.tier {
+    Tier::Quick => 24,
+    Tier::Thorough => 400,
+  };
+  run.prop("recv_timeout_under_peer_churn", n_churn, 6, 4, churn_strategy(), |c, rec: &mut CaseRec| {
+    rec.nontrivial = (c.peers as u64) * (c.gap_ms as u64) > c.rcvtimeo as u64 / 2;
+    rec.label(c.transport.name());
+    rec.label_if(c.rtype == "ROUTER", "router_receiver");
+    let paused = c.transport == Transport::Inproc;
+    let r = if paused { run_paused(Duration::from_secs(60), format!("{:?}", c), churn_body(c, true)) } else { stack::run_l2(Rt::Multi(2), Duration::from_secs(60), churn_body(c, false)) };
+    l2_result(run, "recv_timeout_under_peer_churn", r)
   });
   let pairs = prop::sample::select(vec![("PUSH", "PULL"), ("DEALER", "DEALER"), ("DEALER", "ROUTER"), ("ROUTER", "DEALER")]).prop_map(|(a, b)| (a.to_string(), b.to_string()));
   run.prop("infinite_sndtimeo_waits", 8, 4, 2, pairs, |p, rec: &mut CaseRec| {
